@@ -40,6 +40,9 @@ type schedKnobs struct {
 	Strategy   string `json:"strategy"` // "random" | "pct"
 	SchedSeed  uint64 `json:"sched_seed"`
 	PCTChanges int    `json:"pct_changes"`
+	// explicit PCT parameters (targeted plans): steps at which the running task is demoted, initial priorities per task
+	ChangeAt []int `json:"pct_change_at,omitempty"`
+	Prio     []int `json:"pct_priorities,omitempty"`
 }
 
 type storeOp struct {
@@ -64,10 +67,58 @@ var serverTaskKinds = []string{
 
 func genSched(g *Rng, tier string) *Plan {
 	k := schedKnobs{Mode: "server", Strategy: Pick(g, "random", "pct"), SchedSeed: g.Uint64(), PCTChanges: 1 + g.Intn(3)}
-	if g.Bool(0.2) {
+	if g.Bool(0.25) {
 		k.Mode = "store"
 	}
 	p := &Plan{Knobs: mustJSON(k)}
+	if k.Mode == "store" && g.Bool(0.35) {
+		// one client changes keys of several collections in a fixed order while others list a prefix that spans them:
+		// a listing is one atomic observation of the whole map, whatever the prefix
+		uniq, nsetup := 0, 0
+		k.Strategy, k.ChangeAt = "pct", []int{1 + g.Intn(24)}
+		if g.Bool(0.3) {
+			k.ChangeAt = append(k.ChangeAt, 1+g.Intn(40))
+		}
+		if g.Bool(0.7) {
+			// the collections exist already
+			pre := schedTask{Kind: "setup"}
+			for _, key := range []string{"/a/k0", "/b/k0", "/c/k0"} {
+				if g.Bool(0.8) {
+					uniq++
+					pre.Ops = append(pre.Ops, storeOp{Op: "put", Key: key, Val: fmt.Sprintf("v%d", uniq)})
+				}
+			}
+			p.Steps = append(p.Steps, mustJSON(pre))
+			nsetup = 1
+		}
+		w := schedTask{Kind: "client"}
+		keys := []string{"/a/k1", "/b/k1", "/c/k1", "/a/k2"}
+		for i, n := 0, 2+g.Intn(3); i < n; i++ {
+			key := keys[(i+g.Intn(2))%len(keys)]
+			if g.Bool(0.75) {
+				uniq++
+				w.Ops = append(w.Ops, storeOp{Op: "put", Key: key, Val: fmt.Sprintf("v%d", uniq)})
+			} else {
+				w.Ops = append(w.Ops, storeOp{Op: "delete", Key: key})
+			}
+		}
+		p.Steps = append(p.Steps, mustJSON(w))
+		for c, nc := 0, 1+g.Intn(2); c < nc; c++ {
+			r := schedTask{Kind: "client"}
+			for i, n := 0, 1+g.Intn(2); i < n; i++ {
+				r.Ops = append(r.Ops, storeOp{Op: "list", Key: Pick(g, "/", "/", "", "/a", "/b")})
+			}
+			p.Steps = append(p.Steps, mustJSON(r))
+		}
+		// a lister runs first and is the one pre-empted
+		k.Prio = make([]int, len(p.Steps)-nsetup)
+		for i := range k.Prio {
+			k.Prio[i] = 1000 + g.Intn(1000)
+		}
+		k.Prio[1+g.Intn(len(k.Prio)-1)] = 3000
+		p.Knobs = mustJSON(k)
+		return p
+	}
 	if k.Mode == "store" {
 		nc := 2 + g.Intn(3)
 		uniq := 0
@@ -84,7 +135,7 @@ func genSched(g *Rng, tier string) *Plan {
 				case 2:
 					t.Ops = append(t.Ops, storeOp{Op: "delete", Key: key})
 				default:
-					t.Ops = append(t.Ops, storeOp{Op: "list", Key: Pick(g, "/a/", "/b/", "/")})
+					t.Ops = append(t.Ops, storeOp{Op: "list", Key: Pick(g, "/a/", "/b/", "/", "/", "")})
 				}
 			}
 			p.Steps = append(p.Steps, mustJSON(t))
@@ -214,6 +265,13 @@ func (hookDispatch) Release(m *simsync.RWMutex, write bool) {
 	}
 }
 
+//go:norace
+func (hookDispatch) Yield(label string) {
+	if s := activeSched; s != nil {
+		s.yield(label)
+	}
+}
+
 // Acquire implements simsync.Hook: the calling task announces (writers) and parks until the model grants.
 //
 //go:norace
@@ -326,6 +384,9 @@ func (s *sched) choose(runnable []*sTask) *sTask {
 				idx = 0
 			}
 		}
+	case s.steps > fairAfter:
+		// late in a long run every runnable task gets its turn: a task that still does not finish is not being starved
+		idx = s.steps % len(runnable)
 	case s.pct:
 		if s.changes[s.steps] && s.cur != nil {
 			s.cur.prio = -s.steps // demote the task that ran last
@@ -343,6 +404,10 @@ func (s *sched) choose(runnable []*sTask) *sTask {
 	s.picks = append(s.picks, idx)
 	return runnable[idx]
 }
+
+// fairAfter: from this step on the schedule is round-robin (PCT and the random walk are unfair by design; the
+// step limit must only ever be reached by a task that cannot finish under a fair schedule either).
+const fairAfter = 4000
 
 type schedOutcome struct {
 	deadlock []string // descriptors of the cycle's tasks (nil: none)
@@ -559,8 +624,11 @@ func execSched(t *testing.T, p *Plan) *Result {
 		s.replay = p.Schedule
 	}
 	if s.pct {
-		for i := 0; i < k.PCTChanges; i++ {
+		for i := 0; i < k.PCTChanges && len(k.ChangeAt) == 0; i++ {
 			s.changes[1+s.rng.IntN(60)] = true
+		}
+		for _, c := range k.ChangeAt {
+			s.changes[c] = true
 		}
 	}
 	rl := newRaceLog()
@@ -574,8 +642,11 @@ func execSched(t *testing.T, p *Plan) *Result {
 		finish = setupServerMode(p, s, res)
 	}
 	if s.pct {
-		for _, t := range s.tasks {
+		for i, t := range s.tasks {
 			t.prio = 1000 + s.rng.IntN(1000)
+			if len(k.Prio) == len(s.tasks) {
+				t.prio = k.Prio[i]
+			}
 		}
 	}
 	setActiveSched(s)
@@ -843,6 +914,17 @@ func setupStoreMode(p *Plan, s *sched, res *Result) func() {
 	for c, raw := range p.Steps {
 		tk := decode[schedTask](raw)
 		c := c
+		if tk.Kind == "setup" {
+			// the map's contents before the clients start: applied one after the other, part of the history
+			for _, op := range tk.Ops {
+				call := s.nextSeq()
+				if op.Op == "put" {
+					_ = store.Put(op.Key, op.Val)
+				}
+				perClient[c] = append(perClient[c], porcupine.Operation{ClientId: c, Input: storeIn{op.Op, op.Key, op.Val}, Call: call, Output: storeOut{}, Return: s.nextSeq()})
+			}
+			continue
+		}
 		wg.Add(1)
 		s.spawn(fmt.Sprintf("c%d:client", c), func() {
 			defer wg.Done()
@@ -914,7 +996,7 @@ func init() {
 	simsync.H = hookDispatch{}
 	register(&Profile{
 		ID: "C20", Name: "sched", Level: "exploration", NoBubble: true,
-		Rule: "each run: 2-4 concurrent tasks, each one HTTP request drawn from every samlidp.Server handler (server mode, 80%) or 2-4 clients x <=6 Get/Put/Delete/List operations on MemoryStore (store mode, 20%), interleaved by a seeded cooperative scheduler (uniform random walk or PCT priorities with 1-3 change points) at every lock acquisition (scheduler-aware RWMutex model in a rewritten scratch copy) and every store-operation boundary; oracles: deadlock/no-progress, Go race detector under the controlled schedule, porcupine linearizability of store histories, one reply and no panic per request; non-trivial = at least one task was pre-empted; distinct = distinct abstract trace (task kinds, lock/store events in schedule order, reply codes)",
+		Rule: "each run: 2-4 concurrent tasks, each one HTTP request drawn from every samlidp.Server handler (server mode, 80%) or 2-4 clients x <=6 Get/Put/Delete/List operations on MemoryStore (store mode, 25%; a third of those: keys of several collections already present, one client changing them in a fixed order while others list a prefix spanning the collections, PCT with an explicit change point inside the listing), interleaved by a seeded cooperative scheduler (uniform random walk or PCT priorities with 1-3 change points; round-robin after step 4000 so that the step limit is only reached by a task that cannot finish under a fair schedule) at every lock acquisition and every typed sync/atomic operation (scheduler-aware RWMutex model and atomic wrappers in a rewritten scratch copy) and every store-operation boundary; oracles: deadlock/no-progress, Go race detector under the controlled schedule, porcupine linearizability of store histories, one reply and no panic per request; non-trivial = at least one task was pre-empted; distinct = distinct abstract trace (task kinds, lock/store events in schedule order, reply codes)",
 		Gen:  genSched, Exec: execSched, Simplify: simplifySched,
 		RunsQuick: 3000, RunsThorough: 300000,
 		Assumptions: []string{"lock model from the sync documentation: a writer that has called Lock blocks later RLock calls until it has acquired and released", "granularity: lock acquisitions and store operations; code between two such points runs atomically in the simulation (the race detector still sees unsynchronised accesses across tasks)", "porcupine Unknown (30 s) is inconclusive and never reported"},
